@@ -512,16 +512,38 @@ def strip_sys(l):
     return l.split(" sys=")[0]
 
 
+def strip_state(l):
+    """the line without the final Key / V / reseed_counter / instantiated (black-box driver)"""
+    return re.sub(r"K=\S+ V=\S+ c=\d+ i=\d+ ", "", l) if l is not None else None
+
+
 def check_drbg(ctx):
     sub = "drbg"
     none_h = os.path.join(vlib.VERIF, "harness", "cpuconfig", "none.h")
-    (exe, err), (fexe, ferr), (oexe, oerr) = par(
-        lambda: vlib.build_c(bname("drv_drbg_asan"), "drv_drbg.c", DRBG_SRCS, cpuconfig=none_h, asan=True),
-        lambda: vlib.build_c(bname("drv_drbg_fill"), "drv_drbg.c", ["util/warnp.c"], cflags=["-DDRV_FILL"],
-                             wraps=["read"], cpuconfig=none_h, asan=True),
+    force_bb = bool(os.environ.get("VERIF_DRBG_BLACKBOX"))
+
+    def build_wb_or_bb(name, srcs, cflags, wraps):
+        """the white-box build (#include of crypto_entropy.c: statics reset between cases and dumped after
+        each) when it compiles; otherwise the black-box build of the same driver (crypto_entropy.c linked
+        as it is, one process per case, no state dump).  Returns (exe, err, blackbox)"""
+        werr = "forced by VERIF_DRBG_BLACKBOX"
+        if not force_bb:
+            e, werr = vlib.build_c(bname(name), "drv_drbg.c", srcs, cflags=cflags, wraps=wraps, cpuconfig=none_h, asan=True)
+            if e:
+                return e, None, False
+        e, berr = vlib.build_c(bname(name + "_bb"), "drv_drbg.c", srcs + ["crypto/crypto_entropy.c"],
+                               cflags=cflags + ["-DDRV_BLACKBOX"], wraps=wraps, cpuconfig=none_h, asan=True)
+        if e:
+            return e, None, True
+        return None, "white-box build: %s\nblack-box build: %s" % (werr[-1500:], berr[-1500:]), True
+
+    (exe, err, bb), (fexe, ferr), (oexe, oerr, obb) = par(
+        lambda: build_wb_or_bb("drv_drbg_asan", DRBG_SRCS, [], []),
+        # entropy_read_fill through the public API of the repository's util/entropy.c
+        lambda: vlib.build_c(bname("drv_drbg_fill"), "drv_drbg.c", ["util/warnp.c", "util/entropy.c"], cflags=["-DDRV_FILL"],
+                             wraps=["open", "open64", "read", "close"], cpuconfig=none_h, asan=True),
         # the REAL util/entropy.c of the repository under crypto_entropy.c; only the system calls are scripted
-        lambda: vlib.build_c(bname("drv_drbg_os"), "drv_drbg.c", DRBG_SRCS + ["util/entropy.c"], cflags=["-DDRV_OS"],
-                             wraps=["open", "open64", "read", "close"], cpuconfig=none_h, asan=True))
+        lambda: build_wb_or_bb("drv_drbg_os", DRBG_SRCS + ["util/entropy.c"], ["-DDRV_OS"], ["open", "open64", "read", "close"]))
     if not exe:
         ctx.fail(sub, "build", "", "C driver does not build: " + err)
         return
@@ -531,6 +553,12 @@ def check_drbg(ctx):
     if not oexe:
         ctx.fail(sub, "build", "", "C driver (real util/entropy.c, system calls interposed) does not build: " + oerr)
         return
+    if bb or obb:
+        ctx.count("drbg.driver.blackbox", int(bb) + int(obb))
+        ctx.notes.append("drbg: the white-box driver (crypto_entropy.c #included, statics reset and dumped by name) %s; "
+                         "black-box build used (crypto_entropy.c linked as it is, one process per case): return codes, output "
+                         "bytes and the entropy-source consumption are compared, the final Key/V/reseed_counter/instantiated "
+                         "are not" % ("was not tried (VERIF_DRBG_BLACKBOX)" if force_bb else "does not compile against this tree"))
     mexe, err = vlib.build_model("drbg")
     if not mexe:
         ctx.fail(sub, "tie", "", err)
@@ -569,6 +597,8 @@ def check_drbg(ctx):
     sh = dict(zip(spec_heavy, spec_h))
     model = model_h + model_l
     spec = [sh.get(c) for c in heavy] + spec_l
+    if bb:
+        model, spec = [strip_state(m) for m in model], [strip_state(x) for x in spec]
     # the spec has no notion of the individual entropy_read calls: compare it without the ent= part
     nd = vlib.tri_compare(ctx, sub, cases, [strip_ent(a) for a in impl], [strip_ent(m) for m in model], spec,
                           describe=lambda c: c if len(c) < 900 else c[:900] + "...")
@@ -589,6 +619,8 @@ def check_drbg(ctx):
     if os_cases:
         vlib.sanitizer_reports(ctx, sub + ".os", os_st)
         os_model, os_spec = os_model_s + os_model_h, os_spec_s + os_spec_h
+        if obb:
+            os_model, os_spec = [strip_state(m) for m in os_model], [strip_state(x) for x in os_spec]
         short = lambda c: c if len(c) < 900 else c[:900] + "..."
         # the spec knows nothing of the individual system calls: compared without the sys= part
         nd = vlib.tri_compare(ctx, sub + ".os", os_cases, [strip_sys(a) for a in os_impl], [strip_sys(m) for m in os_model],
